@@ -1,6 +1,6 @@
 (* C10/Props.v — property-level theorems only. Tags are read by bin/check. *)
-From Coq Require Import List NArith.
-From BLB Require Import Meta.AMap Meta.Curator Meta.CuratorFacts Meta.CuratorInv Meta.Master C10.Proofs C10.ProofsMaster.
+From Coq Require Import List NArith Lia.
+From BLB Require Import Meta.AMap Meta.Curator Meta.CuratorFacts Meta.CuratorInv Meta.Master C10.Proofs C10.ProofsMaster C10.ProofsNoCrash C11.ProofsInv C11.ProofsG.
 Import ListNotations.
 Open Scope N_scope.
 
@@ -70,14 +70,28 @@ Theorem replicas_agree_master_refuted :
 Proof. exact replicas_agree_master_refuted_lemma. Qed.
 Print Assumptions replicas_agree_master_refuted.
 
-(* [PARTIAL] curator: in every state reachable from the empty database by ANY command sequence, a command that is submittable relative to that state (ChangeTract index below the current tract count, storage class from the enum, VerifyChecksum consistent with the replica's own checksum) does not kill the replica; partial because submittable is state-relative, the lifting from an index read at an earlier state needs C11 clauses a and b *)
-Theorem no_crash_on_api_commands_partial :
+(* [FULL] curator, the last sentence of the property: in every state reachable from the empty database by submittable commands, restarts allowed, every further submittable command is applied without killing the replica. submittable is relative to the HISTORY, see C10/ProofsNoCrash.v and notes/C10.md: a ChangeTract index is one GetTracts returned for that blob at some earlier state, a VerifyChecksum carries the checksum the ChecksumCommand at that raft index returned, storage classes come from the enum, host lists carry ids 1 to 2^20 - 1, commit layouts are packTracts layouts; blob ids, versions, cutoffs, repeated or unknown ids are unrestricted. The gap between history and current state is closed by the C11 invariants, ids never reused and tract lists only grow, and by parts_ok which makes the Fatalf of PutBlob unreachable *)
+Theorem no_crash_on_api_commands :
+  forall h past s i c, sreach h past s -> submittable h past c -> apply s i c <> None.
+Proof. exact no_crash_full_lemma. Qed.
+Print Assumptions no_crash_on_api_commands.
+
+(* [FULL] what holds in every state so reachable: the C11 invariant cinv, every blob in an existing partition, replicated tracts with exactly repl holders, the known-tractserver set covering all holders, RS pointers well formed, every earlier state of the history related to the current one by ids-spoken-for and tract-lists-only-grow, and the volatile checksum pair coming from a ChecksumCommand of the history *)
+Theorem submittable_reachable_invariants :
+  forall h past s, sreach h past s ->
+    cinv (fst s) /\ parts_ok (fst s) /\ parts_wf (fst s) /\ Forall (fun d0 => pastrel d0 (fst s)) past /\ hvol_ok h (snd s)
+    /\ inv_c (fst s) /\ inv_h (fst s) /\ inv_g (fst s).
+Proof. exact sreach_sinv. Qed.
+Print Assumptions submittable_reachable_invariants.
+
+(* [FULL] the state-relative form for states reachable by ANY command sequence, kept because it needs no hypothesis on the history: a command whose ChangeTract index is below the current tract count, whose storage class is in the enum and whose VerifyChecksum agrees with the replica's own checksum does not kill the replica *)
+Theorem no_crash_on_api_commands_state_relative :
   forall cs s r i c,
     apply_all s_init cs = Some (s, r) -> submittable_now s c -> apply s i c <> None.
 Proof.
   intros cs s r i c H S. destruct (reachable_ok _ _ _ H). apply no_crash_lemma; auto.
 Qed.
-Print Assumptions no_crash_on_api_commands_partial.
+Print Assumptions no_crash_on_api_commands_state_relative.
 
 (* [FULL] master: only a ChecksumVerify that contradicts the replica's own checksum at that index kills a master replica *)
 Theorem no_crash_on_api_commands_master :
@@ -107,3 +121,31 @@ Example ex_replicas_agree_instance :
     apply_all (restore sk (snapshot sj)) (skipn 3 ex_cs) = Some (s', r') /\
     fst s' = fst sfull /\ skipn 3 r' = skipn 6 rfull /\ d_index (fst sfull) = 10 /\ length (d_blobs (fst sfull)) = 1%nat.
 Proof. do 8 eexists. repeat (match goal with |- _ /\ _ => split end); vm_compute; reflexivity. Qed.
+
+(* non-vacuity of no_crash_on_api_commands: after create + extend (+ a delete of another blob) a ChangeTract built from the
+   read made right after the extend is submittable with respect to the history and is applied (here: successfully) *)
+Definition ex_nc : list (N * cmd) :=
+  [(1, CSetReg 1); (2, CAddPart 1); (3, CCreate 3 (1600000000 * nano) 0 0); (4, CCreate 2 (1600000001 * nano) 0 0);
+   (5, CExtend 4294967297 0 [[1; 2; 3]]); (6, CDelete 4294967298 (1600000005 * nano));
+   (7, CFinishDelete 0 [4294967298; 4294967298; 77])].
+Example ex_nc_simple : Forall (fun e => simple_sub (snd e)) ex_nc.
+Proof.
+  repeat constructor; cbn; auto; try (intros n Hn; discriminate Hn);
+    repeat constructor; unfold host_ok, two20; lia.
+Qed.
+Example ex_no_crash_instance :
+  exists past s s' r,
+    sreach ex_nc past s /\ submittable ex_nc past (CChangeTract 4294967297 0 2 [1; 2; 4]) /\
+    apply s 9 (CChangeTract 4294967297 0 2 [1; 2; 4]) = Some (s', r) /\ r = [1; 0].
+Proof.
+  destruct (apply_all s_init ex_nc) as [[s rs]|] eqn:E; [|vm_compute in E; discriminate].
+  destruct (sreach_run ex_nc [] [d_init] s_init s rs sr_init ex_nc_simple E) as [past R]. cbn [app] in R.
+  assert (Es : s = fst (match apply_all s_init ex_nc with Some x => x | None => (s_init, []) end)) by (rewrite E; reflexivity).
+  exists past, s. destruct (apply s 9 (CChangeTract 4294967297 0 2 [1; 2; 4])) as [[s' r]|] eqn:Ea.
+  - exists s', r. split; [exact R|]. split.
+    + repeat split; try (cbn; repeat constructor; unfold host_ok, two20; lia); try (intros n Hn; discriminate Hn).
+      exists (fst s). pose proof (sreach_cur_in_past _ _ _ R) as Hin.
+      rewrite Es. eexists. split; [rewrite <- Es; exact Hin|]. split; [vm_compute; reflexivity|vm_compute; reflexivity].
+    + split; [reflexivity|]. rewrite Es in Ea. vm_compute in Ea. injection Ea as _ <-. reflexivity.
+  - exfalso. rewrite Es in Ea. vm_compute in Ea. discriminate.
+Qed.
